@@ -116,7 +116,6 @@ var c08Audited = map[string]c08Audit{
 	"(*pkg/slayers.SCION).SerializeTo":        {9, "buf = PrependBytes(CmnHdrLen + AddrHdrLen() + Path.Len()): constant offsets below 12, then buf[12:] and buf[12+AddrHdrLen():] lie inside that length"},
 	"(*pkg/slayers.SCION).pseudoHeaderChecksum": {2, "loops i+=2 over RawDstAddr/RawSrcAddr whose length is AddrType.Length() in {4,8,12,16} (even), set by DecodeAddrHdr; SVC/IPv4/IPv6 setters keep it"},
 	"(*pkg/slayers.EndToEndExtn).DecodeFromBytes": {1, "decodeExtnBase established len(data) >= ActualLen; offset starts at 2 and the loop runs while offset < ActualLen"},
-	"pkg/slayers.decodeTLVOption":              {1, "callers pass data[offset:ActualLen] with offset < ActualLen (loop condition): at least one byte"},
 	"pkg/slayers.serializeTLVOptions":          {3, "buf has length computed by the same length pass (serializeTLVOptions(nil, ...)) over the same options"},
 	"pkg/slayers.serializeTLVOptionPadding":    {1, "called with padding >= 1 and a slice of exactly that many bytes"},
 	"(*pkg/slayers.tlvOption).serializeTo":     {3, "data is buf[offset:] inside a buffer sized by tlvOption.length() for the same option"},
